@@ -227,7 +227,7 @@ func CallbackTrace(cs *connState) string {
 	var sb strings.Builder
 	for _, e := range cs.Events {
 		switch e.K {
-		case "read", "write", "quiesce", "close", "idle", "wedge":
+		case "read", "write", "quiesce", "close", "idle", "wedge", "read-wait":
 			continue
 		}
 		sb.WriteString(e.K)
